@@ -53,6 +53,9 @@ type Scenario struct {
 	Packets  int           `json:"packets"`
 	IntUS    int           `json:"interval_us"`
 	StartSeq uint16        `json:"start_seq"`
+	// PerSession (source stream): the application writes every packet with ServerSession.WritePacketRTP
+	// / WritePacketRTCP to each session that is playing, instead of through the ServerStream.
+	PerSession bool `json:"per_session,omitempty"`
 	Case     int           `json:"case,omitempty"` // downgrade case
 }
 
@@ -91,6 +94,12 @@ func gen(seed uint64, tier string) Scenario {
 	sc.StartSeq = uint16(65536 - r.Range(1, sc.Packets))
 	if r.Bool(0.2) {
 		sc.StartSeq = uint16(r.Intn(65536))
+	}
+	// per-session writer (hash-derived so that no other choice moves); no wrap there: every
+	// session keeps its own roll-over counter from the packets it is given
+	if x := core.HS(seed, "c17.persession", "", 0); sc.Source == "stream" && x%100 < 15 {
+		sc.PerSession = true
+		sc.StartSeq = uint16(1000 + (x>>8)%20000)
 	}
 	n := simnet.Config{Seed: seed ^ 0x17171717}
 	n.LatMinUS = r.Pick(10, 100, 1000)
@@ -331,7 +340,12 @@ func run(t *testing.T, sc Scenario) *core.Result {
 							fwdG[k][c] = w.Log.NextG()
 						}
 						wmu.Unlock()
-						if sc.Source == "stream" {
+						if sc.Source == "stream" && sc.PerSession {
+							for _, ss := range playingSessions(h) {
+								ss.WritePacketRTP(medias[mi], pkt) //nolint:errcheck
+							}
+							setRet(k, c)
+						} else if sc.Source == "stream" {
 							stream.WritePacketRTP(medias[mi], pkt) //nolint:errcheck
 							setRet(k, c)
 						} else {
@@ -346,7 +360,11 @@ func run(t *testing.T, sc Scenario) *core.Result {
 					markers = append(markers, mk)
 					mmu.Unlock()
 					app := &rtcp.ApplicationDefined{SSRC: 0x1234, Name: "VRIF", Data: mk}
-					if sc.Source == "stream" {
+					if sc.Source == "stream" && sc.PerSession {
+						for _, ss := range playingSessions(h) {
+							ss.WritePacketRTCP(desc.Medias[0], app) //nolint:errcheck
+						}
+					} else if sc.Source == "stream" {
 						stream.WritePacketRTCP(desc.Medias[0], app) //nolint:errcheck
 					} else {
 						pub.WritePacketRTCP(pubMedias[0], app) //nolint:errcheck
@@ -596,6 +614,34 @@ func run(t *testing.T, sc Scenario) *core.Result {
 	return res
 }
 
+// playingSessions returns the sessions that are in the play state according to the handler's
+// callback history (play adds, pause / session close remove), in the order of their PLAY.
+func playingSessions(h *sys.Handler) []*gortsplib.ServerSession {
+	var out []*gortsplib.ServerSession
+	for _, cb := range h.Callbacks() {
+		switch cb.Kind {
+		case "play":
+			found := false
+			for _, s := range out {
+				if s == cb.Session {
+					found = true
+				}
+			}
+			if !found && cb.Session != nil {
+				out = append(out, cb.Session)
+			}
+		case "pause", "session.close":
+			for i, s := range out {
+				if s == cb.Session {
+					out = append(out[:i], out[i+1:]...)
+					break
+				}
+			}
+		}
+	}
+	return out
+}
+
 // runDowngrade: the three refusals of the statement.
 func runDowngrade(t *testing.T, sc Scenario) *core.Result {
 	opts := sys.Options{Seed: sc.Seed, Net: sc.Net, MaxSteps: 100000, Horizon: 5 * time.Minute}
@@ -612,7 +658,8 @@ func runDowngrade(t *testing.T, sc Scenario) *core.Result {
 		switch sc.Case {
 		case 0, 1:
 			h := sys.NewHandler(w)
-			srv := &gortsplib.Server{RTSPAddress: "10.0.0.1:8554", UDPRTPAddress: "10.0.0.1:8000", UDPRTCPAddress: "10.0.0.1:8001", Handler: h}
+			srv := &gortsplib.Server{RTSPAddress: "10.0.0.1:8554", UDPRTPAddress: "10.0.0.1:8000", UDPRTCPAddress: "10.0.0.1:8001", Handler: h,
+				MulticastIPRange: "224.1.0.0/16", MulticastRTPPort: 8002, MulticastRTCPPort: 8003}
 			if sc.Case == 1 {
 				srv.TLSConfig = sys.ServerTLSConfig()
 			}
@@ -654,8 +701,8 @@ func runDowngrade(t *testing.T, sc Scenario) *core.Result {
 					// secure profile over plain RTSP (keys would travel in clear)
 					tr = []string{"RTP/SAVP;unicast;client_port=35000-35001", "RTP/SAVP/TCP;unicast;interleaved=0-1"}[int(sc.Seed)%2]
 				} else {
-					// unencrypted UDP over RTSPS
-					tr = "RTP/AVP;unicast;client_port=35000-35001"
+					// unencrypted UDP (unicast or multicast) over RTSPS
+					tr = []string{"RTP/AVP;unicast;client_port=35000-35001", "RTP/AVP;multicast", "RTP/AVP/UDP;multicast"}[int(sc.Seed/2)%3]
 				}
 				hdr := base.Header{"Transport": base.HeaderValue{tr}}
 				if sc.Case == 0 {
@@ -677,7 +724,7 @@ func runDowngrade(t *testing.T, sc Scenario) *core.Result {
 					if sc.Case == 0 {
 						w.Fail("c17/downgrade accepted", "SETUP with the secure profile (%s) was accepted over plain RTSP: status %d", tr, resp.StatusCode)
 					} else {
-						w.Fail("c17/downgrade accepted", "SETUP with unencrypted UDP was accepted over RTSPS: status %d", resp.StatusCode)
+						w.Fail("c17/downgrade accepted", "SETUP with unencrypted UDP (%s) was accepted over RTSPS: status %d", tr, resp.StatusCode)
 					}
 					return
 				}
